@@ -189,7 +189,13 @@ def redescribe(m, rng, kind):
         out["meshes"] = [models.rotate_triangles(ms, rng) for ms in out["meshes"]]
     elif kind == "mesh_flip":
         k = rng.randrange(len(out["meshes"]))
-        out["meshes"] = [models.flip_winding(ms) if (i == k or rng.random() < 0.3) else ms for i, ms in enumerate(out["meshes"])]
+        fl = [(i == k or rng.random() < 0.3) for i in range(len(out["meshes"]))]
+        flipped = {ms[0] for f, ms in zip(fl, out["meshes"]) if f}
+        out["meshes"] = [models.flip_winding(ms) if f else ms for f, ms in zip(fl, out["meshes"])]
+        # the signs inside a multi-mesh interface are relative to the windings in the files: a flipped member changes sign
+        # (a single-mesh interface keeps its sign: the reader's global repair has to cope)
+        multi = {mn for _, ms in out["interfaces"] if len(ms) > 1 for _, mn in ms}
+        out["interfaces"] = [(n, [((-s if (mn in flipped and mn in multi) else s), mn) for s, mn in ms]) for n, ms in out["interfaces"]]
     elif kind == "local_flips":
         nm = []
         for n, vs, ts in out["meshes"]:
